@@ -121,5 +121,15 @@ CLAIMED = {
    note='Trusted: z3; CRC-32C as uninterpreted function; SHA-256 axiom. The technique adds quantification over contents; aliasing itself is structural. '
         'Sequences longer than 3 and multi-threading are outside the claim.',
    technique='bounded model checking of operation sequences by symbolic execution of the real source with z3 (SX); replay on the untouched library'),
+ 'C05': dict(
+   text='Bounded symbolic execution of the real Boc parser (Cell.from_boc) on bytes produced by the strict encoder of specs/bocspec.py with ALL cell contents, '
+        'stored hashes and extension bytes symbolic: 6 DAGs x size 1..4 x off_bytes min/2/8 x index/cache bits/CRC (quick: a seeded fifth), other topological '
+        'orders, 1..3 roots incl. a root that is not cell 0, stored hashes on cell subsets and on exotic cells, both legacy magics: the returned roots have '
+        'exactly the denoted structure and hash. Rejection (any exception) for every truncation length, extension by 1/2/4 symbolic bytes, every single-bit '
+        'flip position of CRC-protected input and every reference replaced by ANY backward/self or dangling index.',
+   note='Trusted: z3; specs/bocspec.py; CRC-32C as an uninterpreted function plus the fact that equally long inputs differing in one byte have different CRCs, '
+        'which follows (all lengths) from the two step lemmas discharged on the crc32c loop body sliced from the current source. Absent cells, slack inside '
+        'cell_data and DAGs of more than 5 cells are outside the claim.',
+   technique='bounded symbolic execution of the real source with z3 (SX) + inductive step lemmas on the AST-sliced crc32c loop body; replay on the untouched library'),
 }
 NOT_APPLICABLE = {}
